@@ -122,6 +122,8 @@ impl From<git::Oid> for RepoId { fn from(o: git::Oid) -> (r: RepoId) ensures r =
 impl vstd::std_specs::convert::FromSpecImpl<git::Oid> for RepoId { open spec fn obeys_from_spec() -> bool { true } open spec fn from_spec(o: git::Oid) -> RepoId { RepoId(o) } }
 #[derive(Clone, Copy, PartialEq, Eq, Debug)] pub struct Timestamp(pub u64);
 impl Deref for Timestamp { type Target = u64; fn deref(&self) -> (r: &u64) ensures *r == self.0 { &self.0 } }
+impl Timestamp { /// radicle::node::timestamp (not extracted)
+    pub const MAX: Timestamp = Timestamp(9223372036854775807); }
 impl TryFrom<u64> for Timestamp {
     type Error = u64;
     /// radicle::node::timestamp (not extracted): Ok exactly for values <= i64::MAX
@@ -292,6 +294,8 @@ impl Encode for String { open spec fn enc(&self) -> Seq<u8> { string_bytes(*self
 #[verifier::external_body]
 pub fn vx_from_utf8(v: Vec<u8>) -> (r: Result<String, FromUtf8Error>) ensures r is Ok ==> str_utf8(r->Ok_0@) == v@ { unimplemented!() }
 /// ASSUMED (alloc): lossy conversion -- invalid sequences become U+FFFD, so nothing relates the text to the bytes
+/// ASSUMED (core): Result::unwrap_or yields the Ok value, else the default (only so that code using it can be decided)
+pub assume_specification<T, E>[Result::<T, E>::unwrap_or](r: Result<T, E>, d: T) -> (o: T) ensures o == (match r { Ok(v) => v, Err(_) => d });
 pub assume_specification<'a>[String::from_utf8_lossy](v: &'a [u8]) -> std::borrow::Cow<'a, str>;
 pub assume_specification<'a, B: ?Sized + ToOwned>[std::borrow::Cow::<'a, B>::into_owned](c: std::borrow::Cow<'a, B>) -> <B as ToOwned>::Owned;
 /// cyphernet::addr::HostName is #[non_exhaustive]: `Other` stands for variants this crate does not know
